@@ -679,7 +679,9 @@ def check_transmission_frames(ctx, case, paras, viol):
     what = ("frame %d (2 frames after word %d of line %s): the document shows %r; the decoder shows %r after that word and %r "
             "at the end of the line (and %d states in between)" % (F, rec["idx"], case.lines[rec["line"]]["tc"],
                                                                  [(r, s) for r, s, _ in d_rows], ref_now, ref_end, i1 - i0 - 1))
-    if only_rownum and rec["mode"] == "roll" and any(r["cls"] == "pac" and r["mode"] == "roll" and r.get("pac_row") != 15
+    # the frame may already lie in the next line (gap < 2 frames): the mode that matters is the one the decoder is in there
+    in_roll = rec["mode"] == "roll" or mode_at(case, hi + 1) == "roll"
+    if only_rownum and in_roll and any(r["cls"] == "pac" and r["mode"] == "roll" and r.get("pac_row") != 15
                                                      for r in dec.words if r["ch1"] and not r["suppressed"]):
       viol("transmission-rownum:rollup-row", what, finding="F-SCC-ROLLUP-ROW15")
     elif only_rownum:
